@@ -49,13 +49,18 @@ impl Callbacks for Cb {
         if tcx.crate_name(LOCAL_CRATE).as_str() != self.target {
             return Compilation::Continue;
         }
-        // coroutine bodies before the state-machine transform
+        // coroutine bodies before the state-machine transform: clone them all first, because
+        // emitting one body (const evaluation, type queries) can steal the built MIR of another
+        let mut clones = Vec::new();
         for def in tcx.hir_body_owners() {
             if tcx.coroutine_kind(def.to_def_id()).is_some() {
                 let body = tcx.mir_built(def).borrow().clone();
-                let j = with_no_trimmed_paths!(emit_body(tcx, def, &body, "built"));
-                self.built.push(j);
+                clones.push((def, body));
             }
+        }
+        for (def, body) in clones.iter() {
+            let j = with_no_trimmed_paths!(emit_body(tcx, *def, body, "built"));
+            self.built.push(j);
         }
         Compilation::Continue
     }
